@@ -217,6 +217,8 @@ def gen_jbos_item(rng):
             k = 'l' if k == 's' else 's'
         if k == 's':
             s = rand_string(rng, 6) or 'a b'
+            if rng.random() < 0.15:
+                s = rng.choice(['drop dir\\', 'x y\\\\', 'a\\', 'C:\\out dir\\'])
             bits.append(['s', s])
         elif k in 'lL':
             bits.append([k, rng.choice(LIT_POOL)])
@@ -311,6 +313,11 @@ def gen_proj_arg(rng, kind, special):
         return [['s', rng.choice(['--o=', '-I', 'k=', '/out:'])], pathpart()]
     if r < 0.7:
         return [pathpart(), ['s', rng.choice(['.bak', ',x', '=1'])]]
+    if r < 0.75:
+        # a string that ENDS IN BACKSLASHES glued to a path (a Windows directory prefix):
+        # whether those backslashes are doubled depends on what follows them in the output
+        return [['s', rng.choice(['drop dir\\', 'x y\\\\', 'a\\', '\\\\srv\\share\\',
+                                  'C:\\out dir\\', 'q"r\\'])], pathpart()]
     if r < 0.8:
         return [['s', text(4) or 'a b'], pathpart()]
     if r < 0.9:
@@ -337,6 +344,11 @@ def gen_proj_case(rng, idx):
         steps.append({'name': 's%02d' % i if rng.random() < 0.7 else
                       'd %d/s%02d.out' % (i % 3, i),
                       'kind': kind, 'cmds': cmds})
+    # every project has words made of a string ending in backslashes and a path
+    for st, pre in zip(steps, ['drop dir\\', 'a\\', 'x y\\\\', '\\\\srv\\sh are\\']):
+        part = ['out'] if st['kind'] == 'build_step' and pre.startswith('a') else \
+            ['src', SRC_FILES[len(pre) % 2]]
+        st['cmds'][0].append([['s', pre], part])
     return {'kind': 'proj', 'project': rng.choice(['p', 'p q', 'my.proj-1']),
             'srcname': rng.choice(['src', 's rc']), 'steps': steps,
             'tag': 'proj%d' % idx}
